@@ -399,10 +399,12 @@ where
         trace.push(format!("AtomicBitFieldVec::<{}>::from(BitFieldVec::from_raw_parts(garbage {} + {} spare words, width {}, values {}))", W::NAME, g.name(), spare, width, show_vals(&m)));
         a = b.into();
     }
-    let ords = [Ordering::Relaxed, Ordering::SeqCst];
+    // (the orderings that are admissible both for the loads and for the compare-exchange loops
+    // behind set_atomic; Release and AcqRel are rejected by std for loads)
+    let ords = [Ordering::Relaxed, Ordering::Acquire, Ordering::SeqCst];
     let mut muts = 0usize;
     for _ in 0..steps {
-        let o = ords[c.rng().random_range(0..2)];
+        let o = ords[c.rng().random_range(0..3)];
         match c.rng().random_range(0..100) {
             0..=54 if len > 0 => {
                 let i = if c.rng().random_bool(0.3) { len - 1 - c.rng().random_range(0..len.min(4)) } else { c.rng().random_range(0..len) };
